@@ -54,6 +54,7 @@ func newClientCxn(l lane.Lane, cxn net.Conn, dispatcher *cmdDispatcher) *clientC
 
 	cc.cs = newClientState(l, cc, dispatcher)
 
+	verifPoint("cxn.new", cc.cs.id)
 	cc.queueStateChange(csInitialize, nil)
 
 	go cc.run()
@@ -104,6 +105,11 @@ func (cc *clientCxn) RequestClose() {
 	if !cc.closing {
 		cc.closing = true
 		if cc.waiting {
+			verifPoint("cxn.reqclose.w", cc.cs.id)
+		} else {
+			verifPoint("cxn.reqclose", cc.cs.id)
+		}
+		if cc.waiting {
 			// in a blocking read, close the socket
 			cc.cxn.Close()
 		}
@@ -146,6 +152,7 @@ func (cc *clientCxn) run() {
 		event := <-cc.csceCh
 
 		cc.socketState = event.newState
+		verifPoint(verifCxnTake[cc.socketState], cc.cs.id)
 		switch cc.socketState {
 		case csInitialize:
 			cc.onInitialize()
@@ -156,7 +163,10 @@ func (cc *clientCxn) run() {
 		case csWaitForCommand:
 			// when a close was requested, the terminate event is already queued
 			if !cc.IsCloseRequested() {
+				verifPoint("cxn.waitgo", cc.cs.id)
 				cc.onWaitForCommand()
+			} else {
+				verifPoint("cxn.waitskip", cc.cs.id)
 			}
 		case csDispatchCommand:
 			cc.onDispatchCommand(event.eventData.(respValue))
@@ -170,9 +180,11 @@ func (cc *clientCxn) onTerminate() {
 	// or killed client stops competing for list elements
 	cc.cs.unblock("", false)
 	cc.cs.unregister()
+	verifPoint("cxn.terminated", cc.cs.id)
 }
 
 func (cc *clientCxn) onInitialize() {
+	verifPoint("cxn.qloop.wait", cc.cs.id)
 	cc.queueStateChange(csWaitForCommand, nil)
 }
 
@@ -185,22 +197,30 @@ func (cc *clientCxn) onWaitForCommand() {
 		if cc.closing {
 			// close requested since the caller looked: the socket stays open until the
 			// queued terminate event is handled, so do not start a read nobody would end
+			verifPoint("cxn.closingseen", cc.cs.id)
 			cc.mu.Unlock()
 			return
 		}
 		cc.waiting = true
+		verifPoint("cxn.setwaiting", cc.cs.id)
 		cc.mu.Unlock()
 
 		n, err := cc.cxn.Read(buffer)
 
 		cc.mu.Lock()
 		cc.waiting = false
+		if err != nil {
+			verifPoint("cxn.readend.err", cc.cs.id)
+		} else {
+			verifPoint("cxn.readend.ok", cc.cs.id)
+		}
 		cc.mu.Unlock()
 
 		if err != nil {
 			if !errors.Is(err, io.EOF) {
 				cc.cs.l.Debugf("read error from %s: %s", cc.cxn.RemoteAddr().String(), err)
 			}
+			verifPoint("cxn.qloop.term", cc.cs.id)
 			cc.queueStateChange(csTerminate, nil)
 			return
 		}
@@ -216,6 +236,7 @@ func (cc *clientCxn) onWaitForCommand() {
 	}
 
 	if length == 0 {
+		verifPoint("cxn.qloop.wait", cc.cs.id)
 		cc.queueStateChange(csWaitForCommand, nil)
 	} else {
 		infoMu.Lock()
@@ -223,6 +244,7 @@ func (cc *clientCxn) onWaitForCommand() {
 		info.total_reads_processed++
 		infoMu.Unlock()
 		cc.inbound = cc.inbound[length:]
+		verifPoint("cxn.qloop.disp", cc.cs.id)
 		cc.queueStateChange(csDispatchCommand, cmd)
 	}
 }
@@ -246,6 +268,7 @@ func (cc *clientCxn) onDispatchCommand(cmd respValue) {
 		n, err := cc.cxn.Write(sendData)
 		if err != nil {
 			cc.cs.l.Debugf("write error: %s", err)
+			verifPoint("cxn.dispdone.err", cc.cs.id)
 			cc.cxn.Close()
 		} else {
 			cc.cs.l.Tracef("wrote %d bytes", n)
@@ -254,6 +277,8 @@ func (cc *clientCxn) onDispatchCommand(cmd respValue) {
 			info.total_writes_processed++
 			info.total_commands_processed++
 			infoMu.Unlock()
+			verifPoint("cxn.dispdone.ok", cc.cs.id)
+			verifPoint("cxn.qdisp", cc.cs.id)
 			cc.queueStateChange(csWaitForCommand, nil)
 		}
 	}()
